@@ -12,6 +12,21 @@ CLAIMED = {
         note=PROOF_NOTE + "keys are modelled as segment lists (no '.' inside a queried name); the scope-resolution gate is an input flag here (C01/C07).",
         technique="Lean 4 refinement proof trie-walk = prefix specification (C06_find via fieldAt_insertSegs / fieldAt_fold / walkTree_eq) + correspondence with find_global and the lint",
         design="§4 C06"),
+    "C08": dict(
+        text="Lean 4 model of comment parsing, comment claiming and the push/pop filter machine with an independent specification (innermost covering filter wins, then global, else unchanged). Proved for all inputs: diagnostics of lints no filter names are untouched for every filter family (C08_others_untouched), a file without accepted filters is returned unchanged, the most recent matching configuration decides and inner configurations shadow outer ones. The full `machine = specification for laminar families` statement is not yet a theorem (stated in Props/C08.lean); it is checked three-way (implementation / model / specification) on every generated program.",
+        note=PROOF_NOTE + "PARTIAL: full machine-equals-specification theorem pending; visitor order and str::lines are taken from the implementation via hooks.",
+        technique="Lean 4 theorems over the filter-machine model (partial) + three-way correspondence implementation / model / innermost-covering specification",
+        design="§4 C08"),
+    "C09": dict(
+        text="Proved over the filter model for all inputs: every claimed filter naming a missing lint is reported at its comment (C09_unknown), rejected filters have no effect on any diagnostic (C09_rejected_inert), a late global filter pushes nothing (C09_global_late_inert), a conflicting duplicate sits below the first filter and never decides (C09_conflict_inert); malformed comments are not filters (decide examples). The correspondence inspects every leading-trivia comment of every token, which exposes the recorded finding (comments before else/end are never looked at).",
+        note=PROOF_NOTE + "one known finding recorded (unclaimed comments); conflict detection relies on same-range filters being consecutive (true for ranges claimed from one tree).",
+        technique="Lean 4 theorems over the filter model + correspondence on programs with valid, misspelled, misplaced, duplicated and mangled filter comments at every attachment point",
+        design="§4 C09"),
+    "C10": dict(
+        text="Proved: attaching severities never changes the findings (C10_same_findings), an applicable filter decides independently of the configured severity in both directions (C10_inline_wins), an unfiltered lint keeps the configured severity, an unconfigured lint gets its built-in default from the table regenerated from use_lints!/const SEVERITY on every run (C10_defaults, high_cyclomatic_complexity = allow by decide), Allow diagnostics contribute nothing to counts/exit (via C19). Tied to the code by running the same programs under random severity assignments and by CLI runs in all output modes.",
+        note=PROOF_NOTE + "lint passes being severity-independent is structural in the model and validated by the same-findings comparison.",
+        technique="Lean 4 theorems + regenerated lint/severity table + same-program-under-random-configurations correspondence + CLI runs",
+        design="§4 C10"),
     "C15": dict(
         text="Machine-checked proof (Lean 4) that the model of StandardLibrary::extend / base chains / `+` folds answers every key and lua_versions as the property states, for all libraries and chain lengths; the model is tied to the code by differential runs on generated pairs, chains and the shipped built-in chains.",
         note=PROOF_NOTE + "file-system resolution of library names and serde_yaml are outside the model.",
